@@ -92,6 +92,12 @@ Theorem C03_output_holds_members : forall epoch d t mt x y hm,
      exists es', zip_read y = Some es' /\ length es' = length es /\ copy_all y es' = Ok (map renorm outs')).
 Proof. exact zip_output_holds_members. Qed.
 
+(* the executable domain predicate the correspondence check runs on every sampled archive: when it reports an
+   input inside the domain of C03_output_holds_members, the read-back it computes succeeds *)
+Theorem C03_domain_predicate_sound : forall epoch d t mt x rr,
+  bytes_ok x -> d < 65536 -> t < 65536 -> zip_domain (epoch, (d, t)) mt x = Some (true, rr) -> rr = true.
+Proof. exact zip_domain_sound. Qed.
+
 Print Assumptions C03_layout.
 Print Assumptions C03_local_patch.
 Print Assumptions C03_central_patch.
@@ -103,3 +109,4 @@ Print Assumptions C03_member_count.
 Print Assumptions C03_member_fields.
 Print Assumptions C03_output_reads_back.
 Print Assumptions C03_output_holds_members.
+Print Assumptions C03_domain_predicate_sound.
